@@ -87,10 +87,10 @@ def _run_stream(ctx, mode, args, tag, cov, want_driver=True):
         det = []
         for (ln, a, b) in diffs:
             # program the line belongs to
-            start = ln - 1
+            start = min(ln - 1, len(cases) - 1)
             while start > 0 and not re.match(r"^[BTPURM] ", cases[start]):
                 start -= 1
-            det.append({"line": ln, "program_prefix": [c for c in cases[start:ln] if c not in ("(", ")")][-40:],
+            det.append({"line": ln, "program_prefix": [c for c in cases[start:ln] if c and c not in ("(", ")")][-40:],
                         "impl": a[:400], "model": b[:400]})
         return False, {"stream": tag, "first_differences": det}, st
     st["compared_lines"] = nl
@@ -137,7 +137,7 @@ def run(ctx):
     cov = {"evaluations": 0, "distinct_nontrivial": 0, "traces_validated_against_impl": 0}
     s2_ok, detail = True, None
     streams = {}
-    budget = 300 if ctx.quick else 6000
+    budget = 220 if ctx.quick else 6000
     plan = [("random", [budget], "random")]
     if not ctx.quick:
         plan.append(("exhaustive", [5, 12], "exhaustive"))
